@@ -567,7 +567,7 @@ theorem psoIterate_ok {cfg : LocalCfg} {sp : Space} {f : Pos → Bool} (hgeo : c
             have := ht.feas q ok (hs1.subset (by rw [e]; simp)); rw [← this]; exact hok
           exact ⟨idx, m, _, hget, hidx, rfl, rfl, rfl, sameTracked_trackNewPos _ _, rfl, hs2, hin1, hfe⟩
         · simp only [hok, Bool.false_eq_true, if_false] at h
-          cases hmc : moveClimb cfg.geo (some q) (some 1) tape2 with
+          cases hmc : moveClimb cfg.geo (some q) (some 1) s.tape.length tape2 with
           | error e' => rw [hmc] at h; simp at h
           | ok w =>
             obtain ⟨q2, tape3⟩ := w
